@@ -216,7 +216,9 @@ def _binop(op, a, b):
         if is_num(a) and is_num(b):
             a, b = _coerce(a, b)
             return a * b
-        if isinstance(a, (str, list, tuple)) and isinstance(b, int):
+        if isinstance(a, (str, list, tuple)) and isinstance(b, int) and not isinstance(b, bool):
+            return a * b
+        if isinstance(b, (str, list, tuple)) and isinstance(a, int) and not isinstance(a, bool):
             return a * b
     if isinstance(op, ast.Div) and is_num(a) and is_num(b):
         if b == 0:
@@ -580,6 +582,10 @@ class Folder:
                             return x
                         return Sym(op, [v, x] if flip else [x, v])
                     return y.map(comb)
+        if self.symbolic and isinstance(n.op, ast.Mult):
+            for x, y in ((a, b), (b, a)):
+                if isinstance(x, (Sym, Opaque)) and isinstance(y, list) and not (isinstance(x, Opaque) and x.tag not in ("int", "meta")):
+                    return Sym("repeat", [y, x])   # n * [v]: a list of symbolic length
         if self.symbolic and (isinstance(a, (Sym, Opaque)) or isinstance(b, (Sym, Opaque))) and type(n.op) in self._OPSYM \
                 and not (isinstance(a, (list, tuple)) or isinstance(b, (list, tuple))):
             return Sym(self._OPSYM[type(n.op)], [a, b])
@@ -731,6 +737,29 @@ class Folder:
             k = next((b for b in k.bases if hasattr(b, "node")), None)
         return None
 
+    def _property(self, obj, attr):
+        """A @property of the stand-in's (named) class, resolved through the model's class hierarchy: its FunctionDef, or None."""
+        from . import flow
+
+        cname = obj.fields.get("__class__")
+        if not isinstance(cname, str) or flow.MODEL is None:
+            return None
+        cf = self._ctx_func()
+        k = cf.module.classes.get(cname) if cf is not None else None
+        if k is None:
+            for mod in flow.MODEL.modules.values():
+                if cname in mod.classes:
+                    k = mod.classes[cname]
+                    break
+        if k is None:
+            return None
+        for kk in flow.MODEL.mro(k):
+            f = kk.methods.get(attr)
+            if f is not None:
+                decos = [getattr(d, "id", None) for d in f.node.decorator_list]
+                return f.node if "property" in decos else None
+        return None
+
     def _rebind(self, where, value, env):
         """Functional update of a symbolic array that is not a fresh allocation: the variable / object attribute holding it gets the
         updated term (other names bound to the old term keep the old value: refused when that could be observed is beyond this fold,
@@ -854,6 +883,18 @@ class Folder:
             cv = self._class_attr(v, n.attr)
             if cv is not None:
                 return cv[0]
+            if self.symbolic and len(self.func_stack) < 8:
+                pn = self._property(v, n.attr)
+                if pn is not None:
+                    return self.call(pn, [v])
+                if n.attr == "ndim":
+                    # the canonical form writes len(x.shape) as x.ndim (normalize.py): read it back for objects that only have a shape
+                    sh = v.fields.get("shape")
+                    if sh is None:
+                        pn = self._property(v, "shape")
+                        sh = self.call(pn, [v]) if pn is not None else None
+                    if isinstance(sh, (tuple, list)):
+                        return len(sh)
             raise Raised("AttributeError", n)
         if isinstance(v, slice) and n.attr in ("start", "stop", "step"):
             return getattr(v, n.attr)
@@ -874,6 +915,18 @@ class Folder:
 
     def method_call(self, n, env):
         f = n.func
+        if isinstance(f.value, ast.Call) and isinstance(f.value.func, ast.Name) and f.value.func.id == "super" and not f.value.args and self.symbolic:
+            # super().m(...): the next definition of m in the method resolution order of the class the current function belongs to
+            from . import flow
+
+            cf = self._ctx_func()
+            if cf is not None and cf.cls is not None and cf.params and cf.params[0] in env and flow.MODEL is not None and len(self.func_stack) < 8:
+                for kk in flow.MODEL.mro(cf.cls)[1:]:
+                    t = kk.methods.get(f.attr)
+                    if t is not None:
+                        args = [self.ev(a, env) for a in n.args]
+                        return self.call(t.node, [env[cf.params[0]]] + args, self._kwargs(n, env))
+            raise Refuse("super()")
         recv = self.ev(f.value, env)
         args = [self.ev(a, env) for a in n.args]
         if isinstance(recv, str) and f.attr in self._STR_METHODS and all(isinstance(a, (str, int)) for a in args):
@@ -999,6 +1052,8 @@ class Folder:
             name = f.id
         elif isinstance(f, ast.Attribute) and isinstance(f.value, ast.Name) and f.value.id in ("np", "numpy", "math"):
             name = "np." + f.attr
+        elif isinstance(f, ast.Attribute) and isinstance(f.value, ast.Name) and f.value.id == "copy" and "copy" not in env and f.attr == "copy":
+            name = "copy.copy"
         if name is not None and hasattr(self, "c_" + name.replace(".", "_")):
             args = []
             for a in n.args:
@@ -1377,6 +1432,16 @@ class Folder:
         if ax in (1, -1):
             return self.c_np_hstack([a[0]], {})
         raise Refuse("concatenate axis")
+
+    def c_copy_copy(self, a, kw):
+        v = a[0]
+        if isinstance(v, dict):
+            return dict(v)
+        if isinstance(v, list):
+            return list(v)
+        if isinstance(v, (tuple, str, int, Fraction, frozenset)) or v is None:
+            return v
+        raise Refuse("copy.copy of unknown")
 
     def c_np_arange(self, a, kw):
         if 1 <= len(a) <= 3 and all(isinstance(x, int) and not isinstance(x, bool) for x in a) and set(kw) <= {"dtype"}:
